@@ -80,14 +80,17 @@ func c08RacePass(r *mc.Run) {
 	r.Extra["race_reports_total"] = len(reports)
 	seen := map[string]bool{}
 	for _, rep := range reports {
-		if !strings.Contains(rep, "/repo/") {
+		// a frame of goat itself: by the import path of the function (robust against where the
+		// working tree lives), or by the /repo/ source path
+		const goatPkg = "github.com/goatnetwork/goat/"
+		if !strings.Contains(rep, goatPkg) && !strings.Contains(rep, "/repo/") {
 			continue // races entirely inside dependencies are not goat's
 		}
 		// class = the first two goat functions named in the report
 		var fns []string
 		lines := strings.Split(rep, "\n")
 		for i, l := range lines {
-			if strings.Contains(l, "/repo/") && i > 0 {
+			if i > 0 && strings.Contains(lines[i-1], goatPkg) && strings.Contains(l, ".go:") {
 				fn := strings.TrimSpace(lines[i-1])
 				if j := strings.Index(fn, "("); j > 0 {
 					fn = fn[:j]
